@@ -4,26 +4,31 @@ from props import ModuleCheck, T
 
 ORACLE_CLAUSES_C17 = ["C17_Append", "C17_Aggregate", "C17_History", "C17_StateMirror", "C17_Authority"]
 
-# Testing aid: VERIF_ORACLE_NOF15=1 keeps known finding F15 (max of all-negative answers) out of the
-# drivers and drops its scenario, to see that nothing else fails while F15 is not yet in known_findings.json.
-_NOF15 = ",nof15=1" if os.environ.get("VERIF_ORACLE_NOF15") else ""
-
 ORACLE_RND = T(
-    [dict(n=10, len=30, procs=6, cfg="users=2,provs=3,funds=60,maxfeeds=3,maxtimeout=3" + _NOF15),
-     dict(n=10, len=30, procs=6, cfg="users=3,provs=2,funds=45,maxfeeds=2,maxtimeout=2" + _NOF15)],
-    [dict(n=60, len=40, procs=7, cfg="users=2,provs=3,funds=60,maxfeeds=3,maxtimeout=3" + _NOF15),
-     dict(n=60, len=40, procs=7, cfg="users=3,provs=2,funds=45,maxfeeds=2,maxtimeout=2" + _NOF15)])
+    [dict(n=10, len=30, procs=6, cfg="users=2,provs=3,funds=60,maxfeeds=3,maxtimeout=3"),
+     dict(n=10, len=30, procs=6, cfg="users=3,provs=2,funds=45,maxfeeds=2,maxtimeout=2")],
+    [dict(n=60, len=40, procs=7, cfg="users=2,provs=3,funds=60,maxfeeds=3,maxtimeout=3"),
+     dict(n=60, len=40, procs=7, cfg="users=3,provs=2,funds=45,maxfeeds=2,maxtimeout=2")])
 ORACLE_GEN = T([dict(cfg="GEN_Oracle.cfg", num=14, depth=24, seeds=10)],
                [dict(cfg="GEN_Oracle.cfg", num=60, depth=28, seeds=14)])
-ORACLE_MC = T([dict(cfg="MC_Oracle.cfg", timeout=1500)],
+ORACLE_MC = T([dict(cfg="MC_Oracle.cfg", timeout=1500),
+               # the oracle-price module service and btc-priced bindings (diagnostic clauses X17_*)
+               dict(cfg="MC_Oracle_price.cfg", timeout=1500),
+               # every grow / shrink sequence of latest-history over eight heights
+               dict(cfg="MC_Oracle_hist.cfg", timeout=1500)],
               [dict(cfg="MC_Oracle_big.cfg", timeout=3400),
+               dict(cfg="MC_Oracle_price.cfg", timeout=1500),
+               dict(cfg="MC_Oracle_hist.cfg", timeout=1500),
+               # edits of providers / timeout / frequency / threshold / fee cap, sends, restarts
+               dict(cfg="MC_Oracle_edit.cfg", timeout=3400),
                # two feeds of one creator competing for the same funds (automatic pause in context-id order)
                dict(cfg="MC_Oracle_2feeds.cfg", timeout=3400)])
-ORACLE_GEN_CFG = "users=2,provs=2,funds=60,maxtimeout=2,price=10" + _NOF15
-# fixed coverage suite (every required antecedent, whatever the seed) + the scenario of known finding F15
-ORACLE_SCN = [dict(file="scenarios/oracle_cover.ndjson", cfg="users=2,provs=2,funds=60,maxtimeout=2,price=10")]
-if not _NOF15:
-    ORACLE_SCN.append(dict(file="scenarios/oracle_F15.ndjson", cfg="users=2,provs=2,funds=60,maxtimeout=2,price=10"))
+ORACLE_GEN_CFG = "users=2,provs=2,funds=60,maxtimeout=2,price=10"
+# fixed coverage suite (every required antecedent, whatever the seed) + the regression scenario of F15 (fixed bb6c4a3)
+_SCN_CFG = "users=2,provs=2,funds=60,maxtimeout=2,price=10"
+ORACLE_SCN = [dict(file="scenarios/oracle_cover.ndjson", cfg=_SCN_CFG),
+              dict(file="scenarios/oracle_cover2.ndjson", cfg=_SCN_CFG),
+              dict(file="scenarios/oracle_F15.ndjson", cfg=_SCN_CFG)]
 
 # C11 (finding F7): a short live run whose exchange-rate outcomes straddle the five-minute limit the oracle's
 # module service measures against the host clock; recorded under VERIF_RECORD_DIR and replayed later on replicas.
@@ -37,7 +42,10 @@ PROPS = {
                        ORACLE_MC, ORACLE_GEN, ORACLE_RND, scenarios=ORACLE_SCN,
                        required=["append_respond", "append_expiry", "agg_max", "agg_min", "agg_avg", "agg_negative",
                                  "some_invalid", "below_threshold", "trim", "edit_shrink", "edit_grow",
-                                 "start_ok", "pause_ok", "auto_pause", "unauthorized"],
+                                 "start_ok", "pause_ok", "auto_pause", "unauthorized",
+                                 # beyond C17 (diagnostic clauses X17_*)
+                                 "price_200", "price_400", "price_401", "price_402", "bindx_ok", "bindx_norate",
+                                 "edit_context", "edit_invalid", "restart_after_autopause"],
                        gen_cfg=ORACLE_GEN_CFG,
                        assumptions=["TLC 1.8, SANY, CommunityModules Json", "Go toolchain, strconv float formatting",
                                     "harness projection functions (keeper getters + raw prefix scans of the oracle store)",
@@ -57,6 +65,7 @@ TEXT = {
              "real trace (TLC-generated, seeded random, scenario) against the clauses (verdict) and the step function "
              "(drift). The average is checked in cross-multiplied form |v*n - sum| <= n/2.",
         note="Trusted: TLC/SANY/CommunityModules Json, Go toolchain, the harness projection. Values beyond +-3.4 "
-             "(10^-8 units above 2^31/6) belong to the big-number tier and are not driven. Known finding F15: the "
-             "maximum of answers that are all negative is stored as 0.00000000 (mask: why = max_all_negative)."),
+             "(10^-8 units above 2^31/6) belong to the big-number tier and are not driven. F15 (maximum of all-negative "
+             "answers stored as 0) is fixed in /repo (bb6c4a3); its scenario stays as a regression. Diagnostic clauses "
+             "X17_* (oracle-price module service, btc-priced bindings, edit effects, restarts) are reported, never a verdict."),
 }
